@@ -584,3 +584,45 @@ func keysvFixed(sw *sweep) {
 		}
 	}
 }
+
+// ---------------------------------------------------------------- C17: NewVerifier and points off the curve
+
+// NewVerifier accepts a genuine point and refuses every neighbour of it that is not on the curve —
+// before the genuine point was seen and after (no remembered verdicts)
+func newVerifierFixed(sw *sweep) {
+	for _, cn := range []string{"p256", "p384", "p521"} {
+		c, alg := curveOf(cn)
+		g := detKey(c, "nv-"+cn)
+		bad := func() []*ecdsa.PublicKey {
+			var out []*ecdsa.PublicKey
+			for _, d := range []int64{1, 2, 3, 4, -1, -2} {
+				out = append(out, &ecdsa.PublicKey{Curve: c, X: new(big.Int).Set(g.X), Y: new(big.Int).Add(g.Y, big.NewInt(d))})
+				out = append(out, &ecdsa.PublicKey{Curve: c, X: new(big.Int).Add(g.X, big.NewInt(d)), Y: new(big.Int).Set(g.Y)})
+			}
+			out = append(out, &ecdsa.PublicKey{Curve: c, X: new(big.Int).Set(g.X), Y: new(big.Int).Add(g.Y, c.Params().P)})
+			out = append(out, &ecdsa.PublicKey{Curve: c, X: new(big.Int), Y: new(big.Int)})
+			return out
+		}
+		for round := 0; round < 2; round++ {
+			for i, pk := range bad() {
+				if _, err := pk.ECDH(); err == nil {
+					continue // happens to be a valid point
+				}
+				sw.evals++
+				if _, err := cose.NewVerifier(alg, pk); err == nil {
+					sw.fail("digest", fmt.Sprintf("%s off-curve variant %d round=%d (0 = before, 1 = after the genuine key was accepted)", cn, i, round), "NewVerifier accepted a point that is not on the curve")
+					continue
+				}
+				sw.nontrivial++
+			}
+			if _, err := cose.NewVerifier(alg, &g.PublicKey); err != nil {
+				sw.fail("digest", cn, "NewVerifier refused a genuine key: "+err.Error())
+			}
+			// the other point with the same x is genuine as well
+			neg := &ecdsa.PublicKey{Curve: c, X: new(big.Int).Set(g.X), Y: new(big.Int).Sub(c.Params().P, g.Y)}
+			if _, err := cose.NewVerifier(alg, neg); err != nil {
+				sw.fail("digest", cn, "NewVerifier refused the negated genuine point: "+err.Error())
+			}
+		}
+	}
+}
